@@ -596,6 +596,12 @@ class Tr:
                 return f"(Transc.{name} {a(0)})", S
             if t(0) == V:
                 return f"(Vec.{name} {a(0)})", V
+        if name == "sinc" and len(args) == 1:
+            # numpy.sinc(x) = sin(pi x)/(pi x), 1 at x = 0
+            if t(0) == S:
+                return f"(Num.sinc {a(0)})", S
+            if t(0) == V:
+                return f"(Vec.sinc {a(0)})", V
         if name == "square" and len(args) == 1:
             if t(0) == S:
                 return f"({a(0)} * {a(0)})", S
@@ -903,7 +909,7 @@ class DtypeAbs:
                 if "dtype" in kws:
                     return F_
                 return self.ev(cls, e.args[0], env) if e.args else F_
-            if n in ("sin", "cos", "sqrt", "divide", "trapezoid"):
+            if n in ("sin", "cos", "sqrt", "sinc", "divide", "trapezoid"):
                 if n == "divide" and "out" in kws:
                     o = self.ev(cls, kws["out"], env)
                     if o == I_:
